@@ -12,6 +12,7 @@ the assignment (so an alias taken before a reassignment keeps the old value, and
     `Cls.helper(..)`, `cls.helper(..)`) whose body is itself straight-line code ending in one `return`:
     parameters bound to the (already expanded) arguments, defaults honoured, body executed symbolically,
     the call replaced by the returned expression                                             -> inlined
+  * `f(*(a, b))`, `f(**{"k": v})`, `f(**dict(k=v))`, `functools.partial(g, a, k=v)(b, m=w)`   -> plain calls
   * docstrings, comments, `pass`, imports, logging calls, bare annotations                    -> ignored
 
 Fail closed (TranslationError through `fail`) on: in-place update of a local that has an alias, a lambda /
@@ -28,6 +29,8 @@ from .common import body_no_doc, fail
 
 _LOG_ROOTS = ("logging", "logger", "log", "_logger", "LOGGER", "_log")
 _VIEW_METHODS = ("view", "reshape", "ravel", "squeeze", "transpose", "swapaxes")
+_MUTATORS = ("update", "pop", "popitem", "clear", "setdefault", "append", "extend", "insert", "remove", "sort", "reverse",
+             "add", "discard", "__setitem__", "__delitem__", "__ior__")
 _VIEW_ATTRS = ("T", "values", "real", "imag", "flat")
 
 
@@ -121,11 +124,24 @@ def _bound_inside(n: ast.AST) -> set[str]:
 class Sym:
     """Symbolic reader of the straight-line functions of one module (optionally: the methods of one class)."""
 
-    def __init__(self, tree: ast.Module, cls: ast.ClassDef | None = None, keep: tuple[str, ...] = ()):
+    def __init__(self, tree: ast.Module, cls: ast.ClassDef | None = None, keep: tuple[str, ...] = (),
+                 modname: str | None = None, is_pkg: bool = False, loader=None, _cache=None, _stack=None):
+        """modname / loader: `loader("pkg.mod") -> (ast.Module, is_package) | None` lets calls of straight-line functions
+        imported from another module of the SAME top-level package be followed (the function is read in its own module)."""
         self.tree = tree
+        self.modname, self.is_pkg, self.loader = modname, is_pkg, loader
+        self.cache: dict = _cache if _cache is not None else {}
         self.cls = cls
         self.keep = set(keep)              # callee names the matcher recognises itself: never inlined
         self.consts = module_constants(tree)
+        self.imports = imported_names(tree)
+        self.plain_imports = {a.name for n in ast.walk(tree) if isinstance(n, ast.Import) for a in n.names if not a.asname}
+        # names that are ALSO bound otherwise somewhere in the module (def / class / assignment / parameter): an
+        # imported name that is shadowed anywhere is not trusted to denote the import
+        self.local_defs = {n.name for n in ast.walk(tree) if isinstance(n, (ast.FunctionDef, ast.AsyncFunctionDef, ast.ClassDef))}
+        self.local_defs |= {n.id for n in ast.walk(tree) if isinstance(n, ast.Name) and isinstance(n.ctx, (ast.Store, ast.Del))}
+        self.local_defs |= {a.arg for n in ast.walk(tree) if isinstance(n, ast.arguments)
+                            for a in n.posonlyargs + n.args + n.kwonlyargs + [x for x in (n.vararg, n.kwarg) if x]}
         self.funcs: dict[str, list[ast.FunctionDef]] = {}
         for st in tree.body:
             if isinstance(st, ast.FunctionDef):
@@ -135,8 +151,58 @@ class Sym:
             for st in cls.body:
                 if isinstance(st, ast.FunctionDef):
                     self.methods.setdefault(st.name, []).append(st)
-        self.stack: list[str] = []
+        self.stack: list[str] = _stack if _stack is not None else []
         self.inlined: list[str] = []       # names of the helpers that were followed (evidence)
+        self.stored = {n.id for n in ast.walk(tree) if isinstance(n, ast.Name) and isinstance(n.ctx, (ast.Store, ast.Del))}
+        # local name -> (absolute module, original name) for `from m import f [as g]` anywhere in the module; a name
+        # imported from two different places is dropped
+        self.abs_imports: dict[str, tuple[str, str]] = {}
+        clash: set[str] = set()
+        for n in ast.walk(tree):
+            if isinstance(n, ast.ImportFrom):
+                base = n.module or ""
+                if n.level:
+                    if modname is None:
+                        continue
+                    parts = modname.split(".")
+                    up = n.level - 1 if is_pkg else n.level
+                    if up > len(parts):
+                        continue
+                    parts = parts[:len(parts) - up]
+                    base = ".".join(parts + ([n.module] if n.module else []))
+                for a in n.names:
+                    k = a.asname or a.name
+                    if k in self.abs_imports and self.abs_imports[k] != (base, a.name):
+                        clash.add(k)
+                    self.abs_imports[k] = (base, a.name)
+        for k in clash:
+            self.abs_imports.pop(k, None)
+        # records: module-level `class R(NamedTuple)` whose body is only annotated fields (literal defaults allowed)
+        self.records: dict[str, list[tuple[str, ast.AST | None]]] = {}
+        ncls: dict[str, int] = {}
+        for n in ast.walk(tree):
+            if isinstance(n, ast.ClassDef):
+                ncls[n.name] = ncls.get(n.name, 0) + 1
+        for st in tree.body:
+            if not (isinstance(st, ast.ClassDef) and ncls.get(st.name) == 1 and st.name not in self.stored
+                    and st.name not in self.funcs and not st.decorator_list and not st.keywords and len(st.bases) == 1):
+                continue
+            b = st.bases[0]
+            is_nt = (isinstance(b, ast.Name) and self.imports.get(b.id) == ("typing", "NamedTuple") and b.id not in self.local_defs) \
+                or (isinstance(b, ast.Attribute) and b.attr == "NamedTuple" and isinstance(b.value, ast.Name)
+                    and b.value.id == "typing" and "typing" in self.plain_imports and "typing" not in self.local_defs)
+            if not is_nt:
+                continue
+            fields, ok = [], True
+            for x in body_no_doc(st):
+                if isinstance(x, ast.AnnAssign) and isinstance(x.target, ast.Name) and (x.value is None or is_literal(x.value)):
+                    fields.append((x.target.id, x.value))
+                elif isinstance(x, ast.Pass):
+                    continue
+                else:
+                    ok = False
+            if ok and fields:
+                self.records[st.name] = fields
 
     # ---------------------------------------------------------------------------------------- expressions
 
@@ -156,10 +222,16 @@ class Sym:
                     return copy.deepcopy(self.consts[n.id])
             return copy.deepcopy(n)
         if isinstance(n, ast.Call):
+            f0 = n.func
+            if (isinstance(f0, ast.Attribute) and isinstance(f0.value, ast.Name) and f0.value.id not in shadow
+                    and isinstance(env.get(f0.value.id), (ast.Dict, ast.List, ast.Set, ast.ListComp, ast.DictComp, ast.SetComp))
+                    and f0.attr in _MUTATORS):
+                fail(n, f"a local bound to a display is updated in place ({f0.value.id}.{f0.attr})")
             new = ast.Call(func=self._ex(n.func, env, shadow), args=[self._ex(a, env, shadow) for a in n.args],
                            keywords=[ast.keyword(arg=k.arg, value=self._ex(k.value, env, shadow)) for k in n.keywords])
             ast.copy_location(new, n)
-            got = self._inline(n, new)
+            new = self._norm_call(new)
+            got = self._inline(new, new)
             return got if got is not None else new
         new = copy.copy(n)
         for field, old in ast.iter_fields(n):
@@ -167,6 +239,86 @@ class Sym:
                 setattr(new, field, [self._ex(x, env, shadow) if isinstance(x, ast.AST) else x for x in old])
             elif isinstance(old, ast.AST):
                 setattr(new, field, self._ex(old, env, shadow))
+        if isinstance(new, ast.Attribute) and isinstance(new.ctx, ast.Load):
+            rec = self.record_fields(new.value)
+            if rec is not None and new.attr in dict(rec):
+                return copy.deepcopy(dict(rec)[new.attr])             # `R(a, b).first`  ->  `a`
+        if isinstance(new, ast.Subscript) and isinstance(new.ctx, ast.Load) and isinstance(new.slice, ast.Constant) \
+                and type(new.slice.value) is int:
+            rec = self.record_fields(new.value)
+            if rec is not None and -len(rec) <= new.slice.value < len(rec):
+                return copy.deepcopy(rec[new.slice.value][1])           # `R(a, b)[0]`  ->  `a`
+        return new
+
+    def record_fields(self, v: ast.AST):
+        """[(field, expression)] when `v` is the construction `R(..)` of a module-level NamedTuple record, else None."""
+        if not (isinstance(v, ast.Call) and isinstance(v.func, ast.Name) and v.func.id in self.records):
+            return None
+        if any(isinstance(a, ast.Starred) for a in v.args) or any(k.arg is None for k in v.keywords):
+            return None
+        fields = self.records[v.func.id]
+        names = [f for f, _ in fields]
+        if len(v.args) > len(names):
+            return None
+        got: dict[str, ast.AST] = dict(zip(names, v.args))
+        for k in v.keywords:
+            if k.arg in got or k.arg not in names:
+                return None
+            got[k.arg] = k.value
+        for f, d in fields:
+            if f not in got:
+                if d is None:
+                    return None
+                got[f] = d
+        return [(f, got[f]) for f in names]
+
+    # ---------------------------------------------------------------------------------------- call shapes
+
+    def _is_partial(self, f: ast.AST) -> bool:
+        """`f` denotes functools.partial (whatever it was imported as)"""
+        if isinstance(f, ast.Name):
+            return self.imports.get(f.id) == ("functools", "partial") and f.id not in self.local_defs
+        if isinstance(f, ast.Attribute) and f.attr == "partial" and isinstance(f.value, ast.Name):
+            mod, orig = self.imports.get(f.value.id, (None, None))
+            return (f.value.id == "functools" and f.value.id in self.plain_imports) or (mod == "functools" and orig is None)
+        return False
+
+    def _norm_call(self, call: ast.Call) -> ast.Call:
+        """Equivalent call shapes (arguments are already expanded, so a name bound to a display IS the display):
+          * `f(*(a, b), c)` / `f(*[a, b], c)`                    ->  `f(a, b, c)`
+          * `f(**{"k": v, ..}, m=w)` / `f(**dict(k=v), m=w)`      ->  `f(k=v, .., m=w)`   (string-literal keys, no repeat)
+          * `functools.partial(g, a, k=v)(b, m=w)`                ->  `g(a, b, k=v, m=w)` (a keyword of the call wins)
+        Anything else about star arguments stays as it is (and the matchers fail closed on it)."""
+        args: list[ast.AST] = []
+        for a in call.args:
+            if isinstance(a, ast.Starred) and isinstance(a.value, (ast.Tuple, ast.List)) and not any(
+                    isinstance(e, ast.Starred) for e in a.value.elts):
+                args.extend(a.value.elts)
+            else:
+                args.append(a)
+        kws: list[ast.keyword] = []
+        for k in call.keywords:
+            d = k.value
+            if k.arg is None and isinstance(d, ast.Dict) and all(
+                    isinstance(x, ast.Constant) and isinstance(x.value, str) and x.value.isidentifier() for x in d.keys):
+                kws.extend(ast.keyword(arg=x.value, value=v) for x, v in zip(d.keys, d.values))
+            elif (k.arg is None and isinstance(d, ast.Call) and isinstance(d.func, ast.Name) and d.func.id == "dict"
+                  and "dict" not in self.local_defs and not d.args and all(x.arg is not None for x in d.keywords)):
+                kws.extend(ast.keyword(arg=x.arg, value=x.value) for x in d.keywords)
+            else:
+                kws.append(k)
+        names = [k.arg for k in kws if k.arg is not None]
+        if len(names) != len(set(names)):
+            fail(call, "a keyword argument is given twice (TypeError at run time)")
+        new = ast.copy_location(ast.Call(func=call.func, args=args, keywords=kws), call)
+        f = new.func
+        if (isinstance(f, ast.Call) and self._is_partial(f.func) and f.args
+                and not any(isinstance(a, ast.Starred) for a in f.args + new.args)
+                and all(k.arg is not None for k in f.keywords + new.keywords)):
+            later = {k.arg for k in new.keywords}
+            merged = [k for k in f.keywords if k.arg not in later] + list(new.keywords)
+            inner = ast.copy_location(ast.Call(func=f.args[0], args=list(f.args[1:]) + list(new.args), keywords=merged), call)
+            return self._norm_call(inner)
         return new
 
     # ---------------------------------------------------------------------------------------- helper calls
@@ -175,7 +327,13 @@ class Sym:
         """-> (FunctionDef, skip_first_parameter) for a helper of this module / class, else None."""
         f = call.func
         if isinstance(f, ast.Name):
-            if f.id in self.keep or f.id not in self.funcs or f.id in self.consts:
+            if f.id in self.keep or f.id in self.consts:
+                return None
+            if f.id not in self.funcs:
+                if f.id in self.abs_imports and f.id not in self.local_defs:
+                    got = self._foreign(*self.abs_imports[f.id])
+                    if got is not None and got[1].name not in self.keep:
+                        return got[1], False, got[0]
                 return None
             cands = self.funcs[f.id]
             return (cands[0], False) if len(cands) == 1 else None
@@ -194,12 +352,40 @@ class Sym:
                 return fn, True            # the helper's `self` is the caller's `self`
         return None
 
+    def _foreign(self, mod: str, name: str, depth: int = 0):
+        """(Sym of the defining module, FunctionDef) of a plain module-level function of another module of the same
+        top-level package (re-exports `from .x import f` are followed), else None."""
+        if self.loader is None or self.modname is None or depth > 3 or not mod:
+            return None
+        if mod.split(".")[0] != self.modname.split(".")[0]:
+            return None
+        if mod not in self.cache:
+            got = None
+            try:
+                got = self.loader(mod)
+            except Exception:                                     # unreadable module: the call is simply not followed
+                got = None
+            self.cache[mod] = None if got is None else Sym(got[0], None, keep=tuple(self.keep), modname=mod, is_pkg=got[1],
+                                                           loader=self.loader, _cache=self.cache, _stack=self.stack)
+        sub = self.cache[mod]
+        if sub is None:
+            return None
+        if name in sub.funcs:
+            fns = sub.funcs[name]
+            if len(fns) == 1 and not fns[0].decorator_list and name not in sub.stored and name not in sub.consts:
+                return sub, fns[0]
+            return None
+        if name in sub.abs_imports and name not in sub.local_defs:
+            return sub._foreign(*sub.abs_imports[name], depth + 1)
+        return None
+
     def _inline(self, orig: ast.Call, call: ast.Call):
         """`call` has expanded arguments.  The returned expression of the helper, or None (not a straight-line helper)."""
         got = self._callee(orig)
         if got is None:
             return None
-        fn, skip = got
+        fn, skip = got[0], got[1]
+        owner: Sym = got[2] if len(got) > 2 else self
         if not skip and fn.decorator_list and [ast.unparse(d) for d in fn.decorator_list] != ["staticmethod"]:
             return None
         if fn.name in self.stack or len(self.stack) > 6:
@@ -231,12 +417,14 @@ class Sym:
                 env[name] = copy.deepcopy(defaults[name])
         self.stack.append(fn.name)
         try:
-            ret = self.run(body_no_doc(fn), env, strict=False)
+            ret = owner.run(body_no_doc(fn), env, strict=False)
         finally:
             self.stack.pop()
         if ret is None:
             return None
-        self.inlined.append(fn.name)
+        self.inlined.append(fn.name if owner is self else f"{owner.modname}.{fn.name}")
+        if owner is not self:
+            self.inlined.extend(x for x in owner.inlined if x not in self.inlined)
         return ret
 
     # ---------------------------------------------------------------------------------------- statements
@@ -281,6 +469,10 @@ class Sym:
                     aliases.setdefault(tgt.id, set()).add(b)
                     aliases.setdefault(b, set()).add(tgt.id)
                 env[tgt.id] = val
+            elif isinstance(tgt, (ast.Tuple, ast.List)) and self.record_fields(val) is not None \
+                    and len(tgt.elts) == len(self.record_fields(val)) and all(isinstance(e, ast.Name) for e in tgt.elts):
+                for e, (_, v) in zip(tgt.elts, self.record_fields(val)):     # `a, b = R(x, y)`  ==  `a, b = x, y`
+                    bind(e, v, copy.deepcopy(v), st)
             elif isinstance(tgt, (ast.Tuple, ast.List)) and isinstance(val_raw, (ast.Tuple, ast.List)) \
                     and len(tgt.elts) == len(val_raw.elts) and all(isinstance(e, ast.Name) for e in tgt.elts):
                 vals = list(val.elts)     # every right-hand side was expanded in the OLD environment
